@@ -260,7 +260,9 @@ pub fn run(ctx: &mut Ctx) -> (String, Value, Vec<String>) {
             }
         }
     }
-    for (c0, t1, c1, t2, j2, c2) in [(4_000_000u64, 10_000_000u64, 3_000_000u64, 7_000_000u64, 1_000u64, 2_000_000u64), (1_000_000, 3_000_000, 1_000_001, 5_000_000, 4_999_000, 1_500_000), (400_001, 1_000_000, 300_000, 700_000, 1_000, 200_000), (96, 95, 47, 97, 0, 49)] {
+    for (c0, t1, c1, t2, j2, c2) in [(4_000_000u64, 10_000_000u64, 3_000_000u64, 7_000_000u64, 1_000u64, 2_000_000u64), (1_000_000, 3_000_000, 1_000_001, 5_000_000, 4_999_000, 1_500_000), (400_001, 1_000_000, 300_000, 700_000, 1_000, 200_000), (96, 95, 47, 97, 0, 49),
+        // large and tiny steps mixed: near the fixed point the iterates move by a few ticks only
+        (4_000_000, 10_000_000, 3_000_000, 3, 0, 1), (1_000_000, 2_500_000, 500_000, 7, 5, 4), (40_000_000, 90_000_000, 25_000_000, 2, 1, 1), (1_400_000, 10_000_000, 1, 5, 1_000, 3)] {
         let w = move |r: u64| c0 + r.div_ceil(t1) * c1 + (r + j2).div_ceil(t2) * c2;
         // Kleene iteration from below (exact)
         let mut x = 1u64;
